@@ -482,12 +482,22 @@ Definition holds_role (st : astate) (sender : addr) (r : role) : bool :=
   end.
 
 (* ---------------------------------------------------------------- instantiation *)
-(* Who may instantiate.  Collections: `WasmQuery::ContractInfo{sender}` must answer, i.e.
-   the sender is a contract.  Minters: the sender must answer `Sg2QueryMsg::Params`, i.e.
-   it is a factory.  Both are oracle inputs. *)
+(* Who may instantiate.  The decisive party is the SENDER of the instantiate message:
+   collections ask `WasmQuery::ContractInfo{info.sender}` (the sender must be a contract),
+   minters ask `Sg2QueryMsg::Params` of info.sender (the sender must be a factory).  The
+   message also NAMES addresses — a collection's `minter`, a minter's creator / payment
+   address — and in every ordinary flow the named minter is the sender itself; whether a
+   named address is a contract is recorded with each case but is not an input of the
+   decision: a user account that names an existing contract as minter is still a user
+   account.  All three facts are oracle inputs. *)
 Inductive inst_target := ICollection | IMinter.
-Definition inst_allowed (t : inst_target) (sender_is_contract sender_answers_params : bool) : bool :=
+Record inst_parties := mkIP {
+  ip_sender_is_contract : bool;      (* ContractInfo{info.sender} answers *)
+  ip_sender_answers_params : bool;   (* Params{} on info.sender answers *)
+  ip_named_is_contract : bool        (* the address named in the message is a contract: recorded, never consulted *)
+}.
+Definition inst_allowed (t : inst_target) (p : inst_parties) : bool :=
   match t with
-  | ICollection => sender_is_contract
-  | IMinter => sender_is_contract && sender_answers_params
+  | ICollection => ip_sender_is_contract p
+  | IMinter => ip_sender_is_contract p && ip_sender_answers_params p
   end.
